@@ -518,6 +518,16 @@ def run(ctx, chk):
         if (oo[0] == "multi" and oo[1] == idx) or (oo[0] == "place" and oo[1]["l"] == idx and not [e for e in oo[1]["p"] if e != "deref"]):
             return ("idx", 0, None)
         if oo[0] == "call" and (oo[1][1].get("def") or "").endswith("::len"):
+            # the length of the code vector *when* it was read: before the push of the terminating hlt it is one less than
+            # the length the loop runs against
+            lb = oo[2] if len(oo) > 2 else None
+            pushes = [bi_ for bi_, t_ in M.calls_in(drv) if (t_[1].get("def") or "").endswith("Vec::<T, A>::push") and bi_ not in body]
+            if lb is not None and len(pushes) == 1:
+                if cfg.dominates(pushes[0], lb):
+                    return ("len", 0, None)
+                if cfg.dominates(lb, pushes[0]):
+                    return ("len", 1, None)
+                return None
             return ("len", 0, None)
         binrv = None
         line = None
